@@ -80,14 +80,17 @@ class Monitor:
 
 
 class Recorder:
-    def __init__(self, raise_on=None):
+    def __init__(self, raise_on=None, returns_value=False):
         self.delivered = []
         self.raise_on = raise_on
+        self.returns_value = returns_value
 
     def __call__(self, value):
         self.delivered.append(value)
         if self.raise_on is not None and len(self.delivered) == self.raise_on:
             raise Boom("recorder refuses delivery %d" % self.raise_on)
+        # a hook is free to return something (e.g. the value it displayed); that must not influence the block
+        return value if self.returns_value else None
 
 
 # ------------------------------------------------------------------ program generation
@@ -253,18 +256,26 @@ class Run:
         self.model[id(tag)] = []
         hook_at_entry = sys.displayhook
         entered = False
+        raised_inside = [False]
         try:
             with tag:
                 entered = True
                 self.active.append(tag)
                 try:
-                    self.stmts(st["body"])
+                    try:
+                        self.stmts(st["body"])
+                    except BaseException:
+                        raised_inside[0] = True
+                        raise
                 finally:
                     self.active.pop()
                     if self.hijacked_by is tag:
                         self.hijacked_by = None
                     # on exit (normal or exceptional) the tag is handed to the enclosing hook
                     self.sink().append(tag)
+            if raised_inside[0]:
+                # control only gets here if __exit__ reported the exception as handled
+                self.problems.append(("exception-swallowed-by-block", "an exception raised inside a with-block did not propagate out of it"))
         finally:
             if entered and sys.displayhook is not hook_at_entry:
                 self.problems.append(("hook-not-restored", "after the with-block sys.displayhook is not the hook installed when it was entered"))
@@ -331,7 +342,7 @@ def run_case(ctx, prog, inject_at, recorder_raise_on=None):
     wit = {"program": prog, "inject_at": inject_at, "recorder_raises_on": recorder_raise_on}
     mon = Monitor(ctx)
     real = sys.displayhook
-    rec = Recorder(recorder_raise_on)
+    rec = Recorder(recorder_raise_on, returns_value=(inject_at or 0) % 2 == 1 or recorder_raise_on is None and bool(inject_at is not None and inject_at % 3 == 0))
     run = Run(ctx, inject_at, rec)
     mon.install()
     sys.displayhook = rec
